@@ -1,6 +1,7 @@
 import ComposeVerif.Model.Include
 import ComposeVerif.Spec.Include
 import ComposeVerif.Lemmas.Include
+import ComposeVerif.Lemmas.AuditCmd  -- so that `lake build Props.C06` also builds the audit command used by ./check
 /-!
 # C06 — include is equivalent to pasting the included, fully resolved model
 
